@@ -19,7 +19,7 @@ RULE = ("Hypothesis stateful testing: one RuleBasedStateMachine per optimizer ow
         "executed >= 2 cycles; distinct = SHA-256 of the history.")
 ASSUMPTIONS = ["runs are seeded (C07 makes a seeded run a function of its inputs, which is what makes fresh-vs-reused "
                "comparable)", "a run that raises must raise alike on the fresh instance"]
-BUDGET = {"quick": 10, "thorough": 80}
+BUDGET = {"quick": 16, "thorough": 100}
 MAX_STEPS = 4
 
 
